@@ -6,6 +6,7 @@ sets the clock (get_timestamp replaced from outside; a counter proves the fake w
 Oracle: offline checker over the recorded chain (identity, exact diff, original untouched, strictly increasing
 modified as datetime and as the instant parsed back from the serialised text, refusals).
 """
+import collections
 import copy
 import json
 import warnings
@@ -185,7 +186,8 @@ def judge_step(ctx, label, prev_j, new_j, eff, ver, relation, extra=None):
         ctx.violation("modified-not-strictly-later", "%s (%s, clock %s): serialised modified %s is not later than %s" % (
             label, ver, relation, new_j.get("modified"), prev_j.get("modified")), w)
         bad = True
-    if (extra or {}).get("form") == "object" and not tsor.digits_ok(new_j["modified"], "millisecond", "exact" if ver == "2.0" else "min"):
+    # (a modified the library made up carries the property's precision whatever holds it; one the caller gave to a dictionary is the caller's)
+    if ((extra or {}).get("form") == "object" or (extra or {}).get("generated_modified")) and not tsor.digits_ok(new_j["modified"], "millisecond", "exact" if ver == "2.0" else "min"):
         ctx.violation("modified-precision", "%s: modified %s does not have the %s precision form" % (label, new_j["modified"], ver), w)
         bad = True
     return not bad
@@ -208,6 +210,19 @@ def wl_history(ctx, rng, i):
             cur = stix2.parse(json.dumps(base), allow_custom=True) if form == "object" else dict(base)
         if form == "object" and isinstance(cur, dict):
             form = "dict"
+        if form == "dict":
+            # "any versionable ... dictionary": also the dictionary classes of the standard library, and content of a later
+            # spec version than the library knows (whatever its rules are, a new version is never earlier than the old one)
+            mk = rng.choice(["dict", "dict", "OrderedDict", "defaultdict"])
+            if mk == "OrderedDict":
+                cur = collections.OrderedDict(cur)
+            elif mk == "defaultdict":
+                cur = collections.defaultdict(list, cur)
+            if t == "x-unregistered-type" and ver == "2.1" and rng.random() < 0.3:
+                cur["spec_version"] = "2.2"
+                cur["revoked"] = False
+                mk += "/spec_version-2.2"
+            ctx.see("dictionary kinds", mk)
     except Exception as e:
         ctx.skip("base refused (%s)" % type(e).__name__)
         return
@@ -286,9 +301,16 @@ def wl_history(ctx, rng, i):
                         import datetime as _dt
                         supplied = (_dt.datetime(1, 1, 1, tzinfo=_dt.timezone.utc) + _dt.timedelta(microseconds=sup_us)).astimezone(
                             _dt.timezone(_dt.timedelta(minutes=rng.choice([-330, 60, 345, 0]))))
-                    ctx.see("explicit modified shapes", shape)
+                    via = "custom_properties" if rng.random() < 0.25 else "keyword"
+                    ctx.see("explicit modified shapes", shape + "/" + via)
                     try:
-                        new = stix2.versioning.new_version(prev, modified=supplied) if form == "dict" else prev.new_version(modified=supplied)
+                        if via == "custom_properties":
+                            # a change is a change, whichever argument carries it
+                            label += " via custom_properties"
+                            new = stix2.versioning.new_version(prev, custom_properties={"modified": supplied}) if form == "dict" \
+                                else prev.new_version(custom_properties={"modified": supplied})
+                        else:
+                            new = stix2.versioning.new_version(prev, modified=supplied) if form == "dict" else prev.new_version(modified=supplied)
                     except family():
                         ctx.count("refusals_observed")
                         ctx.see("operations", opname + ":" + kind + ":refused")
@@ -360,7 +382,7 @@ def wl_history(ctx, rng, i):
             if set(new_j.get("object_marking_refs", [])) != want:
                 ctx.violation("change-not-applied", "add_markings result has %r" % (new_j.get("object_marking_refs"),), {"previous": prev_j, "new": new_j})
             eff = {"object_marking_refs": new_j.get("object_marking_refs")}
-        ok = judge_step(ctx, label, prev_j, new_j, eff, ver, rel, {"form": form, "type": t})
+        ok = judge_step(ctx, label, prev_j, new_j, eff, ver, rel, {"form": form, "type": t, "generated_modified": opname in ("new_version", "revoke", "add_markings")})
         # datetime-level ordering for objects
         if form == "object" and hasattr(new, "get") and "modified" in prev and not new["modified"] > prev["modified"]:
             ctx.violation("modified-not-strictly-later", "%s: new.modified <= old.modified as datetimes" % label, {"previous": prev_j, "new": new_j})
@@ -439,7 +461,67 @@ def wl_sco_locked(ctx, rng, i):
     ctx.nontrivial("sco-locked", t)
 
 
+def wl_interop(ctx, rng, i):
+    """Objects made with interoperability=True (identifiers only that mode admits) are versionable objects like the others."""
+    import stix2
+    clk = ctx.state["clock"]
+    ver = ["2.0", "2.1"][i % 2]
+    t = ["identity", "malware", "indicator", "relationship"][(i // 2) % 4]
+    g = ObjGen(rng, ver, hostile=False, ts_max_digits=6, openvocab_custom=False, year_range=(2000, 2030))
+    base = g.make(t, "random", granular=False)
+    base.pop("revoked", None)
+    u = V.uuid_text(rng, 4)
+    odd = rng.choice([u[:14] + "1" + u[15:], "00000000-0000-0000-0000-000000000000", u.upper(), u[:19] + "0" + u[20:]])
+    base["id"] = t + "--" + odd
+    route = ["constructor", "parse"][(i // 8) % 2]
+    try:
+        with warnings.catch_warnings():
+            warnings.simplefilter("ignore")
+            cur = stix2.parse(json.dumps(base), interoperability=True) if route == "parse" else cls_for(ver, t)(interoperability=True, **copy.deepcopy(base))
+    except family() as e:
+        ctx.skip("not admitted even in interoperability mode (%s)" % type(e).__name__)
+        return
+    ctx.count("interoperability_objects")
+    chain = [to_json(cur)]
+    clk.set(tsor.text_us(base["modified"]) + 5 * 10 ** 6)
+    for step, (label, fn) in enumerate((("deepcopy", lambda o: copy.deepcopy(o)), ("new_version(name)", lambda o: o.new_version(**({"name": "renamed"} if "name" in base else {"description": "d"}))),
+                                         ("add_markings(object-level)", lambda o: o.add_markings("marking-definition--613f2e26-407d-48c7-9eca-b8e91df99dc9")),
+                                         ("new_version-as-function", lambda o: stix2.versioning.new_version(o, labels=["l"]) if ver == "2.0" or t != "relationship" else stix2.versioning.new_version(o, description="e")),
+                                         ("revoke()", lambda o: o.revoke()))):
+        prev_j = chain[-1]
+        clk.set(tsor.text_us(prev_j["modified"]) + rng.choice([-10 ** 6, 0, 1, 999, 10 ** 6]))
+        ctx.ev()
+        try:
+            with warnings.catch_warnings():
+                warnings.simplefilter("ignore")
+                new = fn(cur)
+        except family() as e:
+            ctx.violation("legal-operation-refused:interoperability-object", "%s of a %s %s made with interoperability=True (id %s) raised %s: %s" % (
+                label, ver, t, base["id"], type(e).__name__, str(e)[:140]), {"operation": label, "object": prev_j, "route": route, "exception": type(e).__name__, "message": str(e)[:300]})
+            return
+        nj = to_json(new)
+        ctx.nontrivial("interop", ver, t, label, route)
+        ctx.see("operations", "interoperability:" + label)
+        if label == "deepcopy":
+            if nj != prev_j or not (new == cur):
+                ctx.violation("copy-differs:interoperability-object", "deepcopy of an interoperability-mode %s differs from it" % t, {"original": prev_j, "copy": nj})
+            continue
+        if nj.get("id") != base["id"]:
+            ctx.violation("identity-changed:id", "%s changed id" % label, {"previous": prev_j, "new": nj})
+        pm, nm = tsor.text_instant(prev_j["modified"]), tsor.text_instant(nj["modified"])
+        if not nm > pm:
+            ctx.violation("modified-not-strictly-later", "%s (interoperability object): %s is not later than %s" % (label, nj["modified"], prev_j["modified"]), {"previous": prev_j, "new": nj})
+        chain.append(nj)
+        cur = new
+
+
+def cls_for(ver, t):
+    from .c02 import cls_for as f
+    return f(ver, t)
+
+
 WORKLOADS = [
+    Workload("interoperability", wl_interop, quick=48, thorough=2400),
     Workload("history", wl_history, quick=lambda: len(SUBJECTS) * 30, thorough=lambda: len(SUBJECTS) * 6000),
     Workload("sco-locked", wl_sco_locked, quick=24, thorough=1200),
 ]
